@@ -50,6 +50,35 @@ def mixed_large_window(init, ms):
     return len(kinds) > 1
 
 
+def header_bits(m):
+    """number of bits of WBITS + first meta-block header of a member, None if not of the shiftable shape"""
+    wb = read_wbits(m)
+    if wb is None:
+        return None
+    bits = int.from_bytes(m[:7], "little") >> wb[1]
+    if bits & 1:
+        return None
+    mn = (bits >> 1) & 3
+    if mn == 3:
+        return wb[1] + 6 + 8 * ((bits >> 4) & 3)
+    return wb[1] + 3 + 4 * (mn + 4) + 1
+
+
+def header_exceeds_lookahead(init, ms):
+    """does a member that gets shifted (any processed member but the very first) have a first header
+    that does not end inside the 5 look-ahead bytes?"""
+    first = (init == "new")
+    for m in ms:
+        if len(m["bytes"]) < 5:
+            continue
+        if not first:
+            hb = header_bits(m["bytes"])
+            if hb is not None and (hb + 7) // 8 > 5:
+                return True
+        first = False
+    return False
+
+
 def enc_pool(run, tools, thorough):
     rng = run.rng
     cs = contents(rng, thorough)
@@ -125,6 +154,9 @@ def systematic_lists(run, pool):
                 prev, nxt = rng.choice(prevs[o]), rng.choice(cands)
                 if len(nxt["bytes"]) >= 5 and nxt["lgwin"] > prev["lgwin"]:
                     continue
+                # headers longer than the look-ahead are a known finding: one offset is enough
+                if header_exceeds_lookahead("new", [prev, nxt]) and o != 3:
+                    continue
                 lists.append(("new", [prev, nxt]))
                 lists.append(("new", [prev, nxt, rng.choice(shorts)]))
     return lists
@@ -173,6 +205,9 @@ def gen_lists(run, pool, thorough):
         if not ms:
             continue
         if sum(len(m["bytes"]) for m in ms) > (3000000 if thorough else 400000):
+            continue
+        # headers longer than the look-ahead are a known finding: keep them to one list in ten
+        if header_exceeds_lookahead(init, ms) and i % 10 != 0:
             continue
         # lists mixing the two stream formats are a known finding: keep them to one list in ten
         if mixed_large_window(init, ms) and i % 10 != 0:
@@ -282,8 +317,9 @@ def check(run):
                     sizes[">=64KiB member"] += 1
         if why:
             nviol += 1
-            if nviol <= 5 or mixed_large_window(init, ms):
-                case = {"kind": "concat", "variant": var, "init": init, "mixed_large_window": mixed_large_window(init, ms), "member_kinds": [m["kind"] for m in ms], "member_sizes": [len(m["bytes"]) for m in ms],
+            if nviol <= 5 or mixed_large_window(init, ms) or header_exceeds_lookahead(init, ms):
+                case = {"kind": "concat", "variant": var, "init": init, "mixed_large_window": mixed_large_window(init, ms),
+                        "header_exceeds_lookahead": header_exceeds_lookahead(init, ms),"member_kinds": [m["kind"] for m in ms], "member_sizes": [len(m["bytes"]) for m in ms],
                         "content_sizes": [len(m["content"]) for m in ms], "end_offsets": [end_offset(m["bytes"]) for m in ms]}
                 if len(l) < 60000:
                     case["request"] = l
@@ -309,6 +345,7 @@ def check(run):
     run.cov["bit_level_spec_applied"] = nspec_applied
     run.cov["member_lists"] = len(lists)
     run.cov["lists_mixing_large_window_format"] = sum(1 for (i0, m0) in lists if mixed_large_window(i0, m0))
+    run.cov["lists_with_header_longer_than_lookahead"] = sum(1 for (i0, m0) in lists if header_exceeds_lookahead(i0, m0))
     run.cov["samples"] = [jobs[0][2][:300], jobs[len(jobs) // 2][2][:300], {"init": lists[-1][0], "members": [m["kind"] for m in lists[-1][1]]}]
     run.note("%d members in the pool, %d lists, %d runs, %d correspondence problems, %d violations, %d cells reached, %d unreached" %
              (len(pool), len(lists), len(lines), nbad, nviol, len(cells), len(unre)))
